@@ -14,6 +14,14 @@ import threading
 from .kernel import Killed
 
 
+class HardExit(BaseException):
+    """os._exit() in a simulated process"""
+
+    def __init__(self, code):
+        super().__init__(code)
+        self.code = code
+
+
 class FakeQueue:
     def __init__(self, mp, name):
         self.mp, self.sim, self.name = mp, mp.sim, name
@@ -46,8 +54,12 @@ class FakeQueue:
         me.last_deliv[self] = t
 
         def deliver():
-            self.pipe.append(item)
             self.inflight[me] -= 1
+            if getattr(me, "hard_exited", False):
+                sim.log("lost-in-feeder", self.name, self.mp.describe(item))
+                self.mp.fired["item_lost_in_feeder_at_hard_exit"] = self.mp.fired.get("item_lost_in_feeder_at_hard_exit", 0) + 1
+                return          # the process died before its feeder thread wrote the item to the pipe
+            self.pipe.append(item)
         sim.after(t - sim.now, deliver)
         sim.yield_()
 
@@ -130,6 +142,13 @@ class FakeProcess:
                 self.target(*args, **self.kwargs)
             except SystemExit as e:
                 code = e.code if isinstance(e.code, int) else (0 if e.code is None else 1)
+            except HardExit as e:
+                # os._exit(): no atexit handlers, the queue feeder threads die with whatever they had not written yet
+                me = sim.current
+                me.hard_exited = True
+                self._exitcode = e.code
+                sim.log("exit", self.name, e.code, "hard")
+                return
             except Killed:
                 raise
             except BaseException as e:  # pylint: disable=broad-except
